@@ -1001,6 +1001,14 @@ def pick_total(rnd, chroms, designed):
     return rnd.randint(nchr, p)
 
 
+def gen_part_curated():
+    for chroms, n in CURATED + DEFECT:
+        yield dict(k="part", chroms=chroms, n=n)
+    for chroms, n in CURATED:
+        if len(chroms) == 1:
+            yield dict(k="bin", chroms=chroms, nblk=[n])
+
+
 def gen_part_random(rnd, tier):
     for _ in range(40000 if tier == "thorough" else 2500):
         chroms, style, designed = random_layout(rnd, max_chr=5, max_len=(14 if tier == "thorough" else 9))
@@ -1014,18 +1022,22 @@ CURATED = [
     ([[0, 1], [7]], 2), ([[0, 1, 2, 3], [2], [0, 2, 4, 6]], 7), ([[0, 1, 2, 3]], 1), ([[0, 1, 2, 3]], 4),
     ([[3]], 1), ([[3], [4], [5]], 3), ([[0, 3, 6], [0, 1.5, 3, 4.5, 6]], 6), ([[0, 1, 1, 2]], 2),
     ([[0, 0, 1, 1]], 2), ([[0, 10, 20, 30, 40, 50]], 5), ([[0, 0.25, 0.5, 0.75, 1.0], [0, 0.5, 1.0]], 6),
+    # more than 127 / 255 blocks and markers (label and index dtypes)
+    ([list(range(300))], 300), ([list(range(300))], 150), ([list(range(140)), list(range(1000, 1140))], 280),
 ]
 DEFECT = [
     # layouts of the known-defect input classes (kept on purpose; each has its own cls)
     ([[0, 0.1, 0.2, 10]], 3), ([[0, 0.1, 0.2, 10]], 4), ([[0, 1, 2, 100], [0, 50, 100]], 5),   # empty bin
     ([[0, 2, 2, 4]], 4), ([[0, 2, 3, 4]], 4),                                                 # only upper-edge markers
     ([[0, 10], [0, 1, 2, 3]], 4), ([[0, 0.1, 0.2, 10], [0, 1, 2]], 7),                        # apportionment > markers
+    ([[5.0, 7.0], [0.0, 2.0], [100.0, 102.0, 104.0, 106.0, 107.5, 108.0]], 10),   # same, decided by a rounding tie
     ([[5, 5]], 2), ([[1, 1], [2]], 3),                                                         # zero total length
 ]
 
 
 def gen_layout_pool(rnd, count):
     out = [(c, n, "curated") for c, n in CURATED]
+    out += [(c, n, "defect") for c, n in DEFECT]
     for _ in range(count):
         chroms, style, designed = random_layout(rnd, max_chr=3, max_len=6,
                                                 style=rnd.choice(["design", "design", "uniform", "grid"]))
@@ -1035,7 +1047,6 @@ def gen_layout_pool(rnd, count):
 
 def gen_hmat(rnd, tier):
     pool = gen_layout_pool(rnd, 2500 if tier == "thorough" else 260)
-    pool += [(c, n, "defect") for c, n in DEFECT if sum(len(x) for x in c) >= n]
     i = 0
     for chroms, n, style in pool:
         for target in ("haplo", "ohv", "opv", "gb"):
@@ -1063,7 +1074,6 @@ def gen_ohvmat(rnd, tier):
 
 def gen_ohvpipe(rnd, tier):
     pool = gen_layout_pool(rnd, 1500 if tier == "thorough" else 150)
-    pool += [(c, n, "defect") for c, n in DEFECT if sum(len(x) for x in c) >= n]
     for chroms, n, style in pool:
         nind = rnd.randint(1, 4)
         d = rnd.randint(1, 3)
@@ -1079,7 +1089,6 @@ def gen_ohvpipe(rnd, tier):
 
 def gen_opv(rnd, tier):
     pool = gen_layout_pool(rnd, 2500 if tier == "thorough" else 260)
-    pool += [(c, n, "defect") for c, n in DEFECT if sum(len(x) for x in c) >= n]
     for chroms, n, style in pool:
         for kind in ("opv", "gb"):
             nind = rnd.randint(1, 5)
@@ -1130,15 +1139,17 @@ def drive(ctx, cases, sample_keys):
 @unit(P, "ring[partition: apportionment, bins, bounds on marker layouts]", "R", bounded=True,
       targets=["pybrops/core/util/haplo.py:nhaploblk_chrom", "pybrops/core/util/haplo.py:haplobin",
                "pybrops/core/util/haplo.py:haplobin_bounds"],
-      note="bounded: exhaustive integer-grid layouts (1 chromosome <=5 markers on 0..4, 2 chromosomes <=3 markers "
-           "on 0..3, 3 chromosomes <=3 markers) x every block total in [#chromosomes, #markers]; 2500 seeded random "
-           "layouts (<=5 chromosomes x <=9 markers; thorough 40000, <=14 markers)")
+      note="bounded: 33 curated layouts (incl. 300 markers / 300 blocks); exhaustive integer-grid layouts (1 chromosome "
+           "<=5 markers on 0..4, 2 chromosomes <=3 markers on 0..3, 3 chromosomes <=3 markers) x every block total in "
+           "[#chromosomes, #markers]; 2500 seeded random layouts (<=5 chromosomes x <=9 markers); thorough: grids 0..6 / "
+           "0..4, 40000 random layouts with <=14 markers per chromosome")
 def u_ring_partition(ctx):
     ctx.rule = ("every sorted multiset of grid positions per chromosome x every admissible block total, then seeded "
                 "random layouts (uniform, log-normal clustered, integer grid with duplicates, and designed layouts with "
                 "markers exactly on equal-width edges); distinct by (layout, total); non-trivial if >=2 markers and "
                 ">=2 blocks")
-    drive(ctx, itertools.chain(gen_part_exhaustive(ctx.tier), gen_part_random(ctx.rng, ctx.tier)), ("chroms", "n"))
+    drive(ctx, itertools.chain(gen_part_curated(), gen_part_exhaustive(ctx.tier), gen_part_random(ctx.rng, ctx.tier)),
+          ("chroms", "n"))
 
 
 @unit(P, "ring[haplobin with arbitrary per-chromosome counts; haplobin_bounds on arbitrary labels]", "R", bounded=True,
@@ -1154,8 +1165,8 @@ def u_ring_bins(ctx):
 
 @unit(P, "ring[block values conserve additive value: haplomat and three _calc_haplomat copies]", "R", bounded=True,
       targets=["pybrops/core/util/haplo.py:haplomat"],
-      note="bounded: 20 curated + 260 seeded layouts (<=3 chromosomes x <=6 markers; thorough 2500) + 9 known-defect "
-           "layouts, x 4 implementations; 1-4 copies, 1-3 individuals, 1-3 traits; int8 genotypes incl. values >100, "
+      note="bounded: 23 curated + 10 known-defect + 260 seeded layouts (<=3 chromosomes x <=6 markers; thorough 2500) "
+           "x 4 implementations; 1-4 copies, 1-3 individuals, 1-3 traits; int8 genotypes incl. values >100, "
            "integer/real/mixed-magnitude/zero/negative/float32 effects")
 def u_ring_hmat(ctx):
     ctx.rule = ("layout pool x {haplo.haplomat, OHV/OPV/GB _calc_haplomat}; seeded genotypes and effects; checks shape, "
@@ -1166,7 +1177,7 @@ def u_ring_hmat(ctx):
 
 @unit(P, "ring[OHV: _calc_ohvmat, problem classes, protocols vs brute force and DH bound]", "R", bounded=True,
       note="bounded: 500 synthetic _calc_ohvmat cases (<=4 copies, <=4 individuals, <=4 blocks, <=3 parents, chunk "
-           "sizes None/1/2/3/1024; thorough 6000); 170 end-to-end cases (thorough 1500) over 4 problem classes and 4 "
+           "sizes None/1/2/3/1024; thorough 6000); 183 end-to-end cases (thorough 1533) over 4 problem classes and 4 "
            "protocols, <=4 individuals, 1-3 parents with/without repetition; DH recombinants exhaustive when <=200")
 def u_ring_ohv(ctx):
     ctx.rule = ("seeded; OHV of every parent tuple recomputed from genotypes and effects over the partition's blocks; "
@@ -1177,7 +1188,7 @@ def u_ring_ohv(ctx):
 
 
 @unit(P, "ring[OPV and GenotypeBuilder latentfn vs brute force and DH bound]", "R", bounded=True,
-      note="bounded: (20 curated + 260 seeded + 9 known-defect layouts; thorough 2500) x {OPV, GB}; <=5 individuals, "
+      note="bounded: (23 curated + 10 known-defect + 260 seeded layouts; thorough 2500) x {OPV, GB}; <=5 individuals, "
            "subsets of 1..5 (some with a repeated member), 1-4 copies, 1-3 traits")
 def u_ring_opv(ctx):
     ctx.rule = ("seeded; -latentfn(x) recomputed from genotypes and effects as ploidy * sum over blocks of the best "
